@@ -941,6 +941,49 @@ func (g *Gen) nestedListStmts(d int) []Stmt {
 			out = append(out, For{Name: x, Iter: place, Body: body})
 		}
 	}
+	if g.F.Loops && g.R.Chance(1, 2) {
+		// a loop whose variable is a list / an option of a list / an object: changing it in place
+		// changes neither the list that is iterated nor the values its elements alias
+		g.cover("for-elem-mutate")
+		g.nameN++
+		z := "fz" + letters(g.nameN)
+		li := ListOf(Int)
+		bv := Var{b.name, b.t}
+		switch g.R.Intn(3) {
+		case 0:
+			zv := Var{z, li}
+			body := &Block{Stmts: []Stmt{
+				ExprStmt{MCall{Recv: zv, Name: "push", Args: []Expr{g.pureExpr(Int, d-1)}, Ret: Null}},
+				ExprStmt{Assign{"=", Index{zv, IntLit{0}}, g.pureExpr(Int, d-1)}},
+				ExprStmt{Builtin{"println", []Expr{StrLit{"fz"}, zv}}}}}
+			out = append(out, For{Name: z, Iter: mv, Body: body}, ExprStmt{Builtin{"println", []Expr{StrLit{"nz"}, mv, av, bv}}})
+		case 1:
+			ot := ListOf(OptOf(li))
+			g.nameN++
+			ol := "ol" + letters(g.nameN)
+			zv := Var{z, OptOf(li)}
+			inner := MCall{Recv: zv, Name: "unwrap", Ret: li}
+			body := &Block{Stmts: []Stmt{
+				ExprStmt{MCall{Recv: inner, Name: "push", Args: []Expr{g.pureExpr(Int, d-1)}, Ret: Null}},
+				ExprStmt{Builtin{"println", []Expr{StrLit{"fo"}, zv}}}}}
+			out = append(out, Let{Name: ol, V: ListLit{Elems: []Expr{Prefix{"?", av}, Prefix{"?", bv}}, Ty: ot}},
+				For{Name: z, Iter: Var{ol, ot}, Body: body},
+				ExprStmt{Builtin{"println", []Expr{StrLit{"no"}, Var{ol, ot}, av, bv}}})
+		default:
+			objT := ObjOf(Field{"n", Int}, Field{"l", li})
+			ot := ListOf(objT)
+			g.nameN++
+			ol := "ob" + letters(g.nameN)
+			zv := Var{z, objT}
+			body := &Block{Stmts: []Stmt{
+				ExprStmt{Assign{"+=", Member{zv, "n"}, g.pureExpr(Int, d-1)}},
+				ExprStmt{MCall{Recv: Member{zv, "l"}, Name: "push", Args: []Expr{g.pureExpr(Int, d-1)}, Ret: Null}},
+				ExprStmt{Builtin{"println", []Expr{StrLit{"fb"}, Member{zv, "n"}, Member{zv, "l"}}}}}}
+			out = append(out, Let{Name: ol, V: ListLit{Elems: []Expr{ObjLit{[]FieldInit{{"n", IntLit{1}}, {"l", av}}}, ObjLit{[]FieldInit{{"n", IntLit{2}}, {"l", bv}}}}, Ty: ot}},
+				For{Name: z, Iter: Var{ol, ot}, Body: body},
+				ExprStmt{Builtin{"println", []Expr{StrLit{"nb"}, Member{Index{Var{ol, ot}, IntLit{0}}, "n"}, Member{Index{Var{ol, ot}, IntLit{1}}, "l"}, av, bv}}})
+		}
+	}
 	return out
 }
 
